@@ -218,6 +218,11 @@ func (vx *Vaxis) NewStyledString(s string, defaultStyle Style) *StyledString {
 					style.Background = IndexColor(15)
 				}
 			}
+		case strings.HasPrefix(s, "\x1b]8;"):
+			// hyperlink, as written by Encode: params;url ST
+			s = strings.TrimPrefix(s, "\x1b]8;")
+			seq, s, _ = strings.Cut(s, "\x1b\\")
+			style.HyperlinkParams, style.Hyperlink, _ = strings.Cut(seq, ";")
 		default:
 			grapheme, s, width, _ = uniseg.FirstGraphemeClusterInString(s, -1)
 			switch {
